@@ -84,6 +84,10 @@ def build_all(coq_targets):
         if not os.path.exists(HARNESS) or "error" in out.split("Finished")[0]:
             raise BuildError("harness", out)
         info["harness_build_s"] = round(time.time() - t0, 1)
+        if os.path.exists(gen):
+            rc, out = sh("bash " + gen + " post", timeout=600)
+            if rc != 0:
+                raise BuildError("translate", out)
         t0 = time.time()
         rc, out = sh("bash %s/tools/build_model.sh %s" % (VERIF, " ".join(["Model/Case.vo"] + coq_targets)), timeout=3400)
         info["coq_build_s"] = round(time.time() - t0, 1)
